@@ -14,7 +14,7 @@ CHECKS = {
         "cell order and every row is a root-to-leaf path of the tree) and c01_total (the run does succeed). Tie: (i) real run_type_assignment with "
         "_run_type_assignment replaced by a recorded-choice oracle on every tree shape up to 4 levels / 4-6 leaves + random trees vs the extracted model; "
         "(ii) real run_mapping pipeline runs (flatten, drop_level, chunk sizes, 1-4 workers) with spec_routing evaluated on the observed records.",
-   note="That consecutive chunks of every size tile the query is c05_chunks_cover, the completion of dropped / flattened levels is c17_backfilled_path; HDF5/anndata reading of obs "
+   note="Model/VoteDecide.v composes parts that are each tied to the code (tally, votes, choose_node) with one fixed tie order; the composition itself is not run against the code. That consecutive chunks of every size tile the query is c05_chunks_cover, the completion of dropped / flattened levels is c17_backfilled_path; HDF5/anndata reading of obs "
         "and the JSON writer are not modelled. F1 (single top node -> KeyError) was repaired in /repo (df833cb).",
    technique=TECH, ref="DESIGN.md section 7 C01"),
  'C02': dict(
@@ -33,7 +33,7 @@ CHECKS = {
    text="Theorems: c03_choose_node_contract (for every tie order of the sort, every vote function with `iters` votes and every n_assign >= 1 the outcome of "
         "choose_node has: a winner with the most votes and share wv/iters in (0,1]; at most n_assign-1 runners-up, distinct siblings other than the winner, strictly "
         "positive votes none above the winner's, non-increasing, the top vote getters; shares summing to <= 1 and to exactly 1 when every vote getter could be listed), "
-        "the same clauses for any outcome the acceptor accepts (c03_probability_range, c03_runner_up_shape, c03_sum_at_most_one, c03_sum_exactly_one), "
+        "c03_vote_record_accepted (every record of the modelled vote is such an outcome), the same clauses for any outcome the acceptor accepts (c03_probability_range, c03_runner_up_shape, c03_sum_at_most_one, c03_sum_exactly_one), "
         "c03_corr_range (-1 <= r <= 1 by Cauchy-Schwarz over exact integers), and at the level of run_type_assignment for every decision procedure and valid "
         "taxonomy: c03_aggregate_is_running_product and c03_single_child (a level below a single-child parent carries that child, probability 1, no runners-up and "
         "the correlation of the level above; 1 at a single top node). Tie: every record of real run_mapping runs (iteration count 1, zero runners-up, more runners-up "
@@ -147,7 +147,7 @@ CHECKS = {
    technique="Coq proof of hand-written Gallina acceptor model + correspondence check (strace'd traces of the real stages decided by the extracted acceptor)", ref="DESIGN.md section 7 C19"),
  'C06': dict(
    text="Theorems: c06_factor_one_subset_is_everything (with bootstrap factor 1 every acceptable draw, sorted as tally_votes sorts it, is the whole marker "
-        "list 0..n-1 whatever the generator returned), c06_nearest_independent_of_draw, c06_factor_one_tally and c06_factor_one_unanimous (hence every iteration is won by the same leaf: probability 1, no runner-up, a function of the cell alone — also checked on every real factor-1 run); c06_per_cell (for EVERY decision procedure whose record for a cell "
+        "list 0..n-1 whatever the generator returned), c06_nearest_independent_of_draw, c06_factor_one_tally and c06_factor_one_unanimous (hence every iteration is won by the same leaf: probability 1, no runner-up, a function of the cell alone — also checked on every real factor-1 run), c06_vote_at_factor_one_is_per_cell (the vote model at factor 1 meets the per-cell hypothesis); c06_per_cell (for EVERY decision procedure whose record for a cell "
         "is a function of that cell alone, every valid taxonomy, cell list and generator state, run_type_assignment — shared previously_assigned tables, "
         "write-back by row index, visits in sorted node order — equals, row by row, the per-cell recursion map_one down the tree); corollaries "
         "c06_same_cell_same_row (permutation, subset, superset, duplication: same cell, same row, at any positions of any two runs) and c06_chunking (any split "
